@@ -3,7 +3,8 @@
    in its own fresh interpreter).  Result per case: 0 ok, else code + 10 * (index of the first offending call + 1):
    code 1 = the implementation violates the property at that call: a call over a valid design is refused, the exported
             package / netlist differs from the one a fresh process produces for the same tops, add() is accepted on a
-            module that an earlier call elaborated (or refused on one that none did);
+            module that an earlier call elaborated (or refused on one that none did), or a REFUSED add() changed what
+            the module holds;
    code 2 = the property is met but the implementation differs from the model: the (pass entry, module) visit log of the
             call is not the model's, or a pass body changed io it must leave alone (frame conditions of the read
             discipline: bundle-level io before the flattening entry, flattened io after it);
@@ -23,7 +24,8 @@ Definition uinit (d : design) : ustate := init_state unit unit unit (fun _ => tt
    accepted (no exception; elaborate returned the very objects it was given),
    logged: the history ran under the logging elaborator (false: under the default elaborator, no visit log),
    visit log oldest first: (entry, module, public io unchanged by the body),
-   same: 1 output equals the fresh-process reference, 0 differs, 2 the call has no output *)
+   same: 1 output equals the fresh-process reference, 0 differs, 2 the call has no output;
+         for add(): 0 = the attempt changed what the module publicly holds (containers, namespace), 2 = it did not *)
 Inductive iobs := IObs (accepted : bool) (logged : bool) (log : list (nat * nat * bool)) (same : nat).
 Definition c07case := (design * list (op * iobs))%type.
 
@@ -55,7 +57,7 @@ Definition chk_call (bf mk : nat) (st : ustate) (called : list mid) (o : op) (ob
       | Elaborate _ => acc && negb (same =? 0)
       | Export _ | Netlist _ => acc && (same =? 1)
       | NewParent _ => acc
-      | Add m => if spec_elaborated d called m then negb acc else acc
+      | Add m => if spec_elaborated d called m then negb acc && negb (same =? 0) else acc
       end in
     if negb prop_ok then (1, st') else
     let fresh := rev (firstn (List.length (s_log st') - List.length (s_log st)) (s_log st')) in
